@@ -395,7 +395,7 @@ def judge(ctx, binary, scripts, traces, tag, stats):
 
 
 # ----------------------------------------------------------------------------- exhaustive runs of I x P
-MC_BASE = {"one": "MC_one.cfg", "two": "MC_two.cfg"}
+MC_BASE = {"one": "MC_one.cfg", "two": "MC_two.cfg", "lim2": "MC_lim2.cfg"}
 REFUTED = [("gt", "one", "both"), ("check_then_act", "one", "both"), ("assign_race", "one", "both"), ("no_release", "one", "both"),
            ("no_vacuum", "one", "both"), ("early_vacuum", "one", "both"), ("pick_split", "one", "both"),
            ("none", "two", "doc"),            # the engine as it is does NOT satisfy T4 as documented (deviation D1)
@@ -418,9 +418,9 @@ def mc_cfg(sd, base, variant="none", dev="both", invariants=None, overrides=None
 
 def exhaustive(ctx, sd):
     T = ctx.thorough
-    big = {"one": {"Txn": "{t1, t2, t3, t4}", "MaxNow": "6"}, "two": {"Txn": "{t1, t2, t3}", "MaxResp": "2"}} if T else {"one": {}, "two": {}}
+    big = {"one": {"Txn": "{t1, t2, t3, t4}", "MaxNow": "6"}, "two": {"Txn": "{t1, t2, t3}", "MaxResp": "2"}, "lim2": {}} if T else {"one": {}, "two": {}}
     jobs = [("base", (base,), mc_cfg(sd, base, overrides=big[base]), "I x P, instance %s: Conforms / Agree / ExpiryBound / OnePerKey" % base)
-            for base in ("one", "two")]
+            for base in (("one", "two", "lim2") if T else ("one", "two"))]
     # quick tier: a subset of the variants (one per mechanism); thorough: all of them
     refuted = REFUTED if T else [it for it in REFUTED if it[0] in ("check_then_act", "no_vacuum", "pick_split", "none")]
     accepted = ACCEPTED if T else ACCEPTED[:1]
